@@ -126,6 +126,7 @@ class PathCtx:
 
     def __init__(self, prefix=(), timeout_ms=10000, stats=None):
         self.timeout_ms = timeout_ms
+        self.feas_timeout_ms = 3000
         self.prefix = list(prefix)
         self.decisions = []  # choices actually taken on this path
         self.alternatives = []  # prefixes that still have to be explored
@@ -284,7 +285,14 @@ class PathCtx:
             raise PathInfeasible()
 
     def feasible(self, z):
-        r, _ = self._check(z)
+        # feasibility only steers the exploration (unknown is treated as feasible), so it gets a
+        # short budget; quantified path conditions rarely let the solver prove `sat`
+        old = self.timeout_ms
+        self.timeout_ms = min(old, self.feas_timeout_ms)
+        try:
+            r, _ = self._check(z)
+        finally:
+            self.timeout_ms = old
         return r  # sat / unsat / unknown
 
     def branch(self, z) -> bool:
